@@ -1,5 +1,6 @@
 import Driver.Util
 import SonicModel.Impl.Str
+import SonicModel.Impl.StrBlock
 import SonicModel.Spec.Grammar
 namespace Driver
 open Sonic Sonic.Impl
@@ -26,10 +27,20 @@ def c09 (args : List String) : String :=
       let lossyRepaired : String := match lossy with
         | some (bs, _) => "S:" ++ hex (Spec.utf8Lossy bs.toArray 0)
         | none => "R"
+      -- the copying decoder with its 32-byte blocks (Impl/StrBlock.lean), next to the scalar one (proved equal as views)
+      let showB (o : Option DecRes) : String := match o with
+        | some (.ok bs e _) => s!"S:{hex bs}:{e}"
+        | some (.err _ _) => "R"
+        | none => "FUEL"
+      let showV (r : DecRes) : String := match r with
+        | .ok bs e _ => s!"S:{hex bs}:{e}"
+        | .err _ _ => "R"
+      let mb := showB (Sonic.StrBlock.parseStringRaw false buf (s+1))
+      let mbl := showB (Sonic.StrBlock.parseStringRaw true buf (s+1))
       let hasBs : Bool := match strict with
         | some (_, e) => (buf.toList.drop (s+1)).take (e - 1 - (s+1)) |>.any (· == 92)
         | none => false
-      s!"spec.strict={showO strict} spec.lossy={lossyRepaired} m.strict={showM m} m.lossy={showM ml} g={ar (Spec.stringG buf (s+1)).isSome} pre8={ar (Spec.utf8FirstInvalid buf 0 ≥ (match Spec.stringG buf (s+1) with | some e => e | none => 0))} utf8={ar u} doc={ar docOk} docg={ar docOkL} bs={if hasBs then 1 else 0}"
+      s!"spec.strict={showO strict} spec.lossy={lossyRepaired} m.strict={showM m} m.lossy={showM ml} g={ar (Spec.stringG buf (s+1)).isSome} pre8={ar (Spec.utf8FirstInvalid buf 0 ≥ (match Spec.stringG buf (s+1) with | some e => e | none => 0))} utf8={ar u} doc={ar docOk} docg={ar docOkL} bs={if hasBs then 1 else 0} m.blk={mb} m.blkS={showV m} m.blkl={mbl} m.blklS={showV ml}"
     | _, _ => "bad-args"
   | _ => "bad-args"
 
